@@ -101,6 +101,11 @@ impl Polytope {
     /// s.t. self.mat @ x <= self.bias
     #[cfg(feature = "minilp")]
     pub fn solve_linprog(&self, coeffs: Array1<f64>, _verbose: bool) -> PolytopeStatus {
+        #[cfg(affinitree_verif)]
+        if let Some(status) = crate::verif_hooks::lp_intercept(self, &coeffs) {
+            return status;
+        }
+
         let problem = self.as_linprog(coeffs);
         let pb = problem.solver;
         let vars = problem.vars;
